@@ -55,6 +55,8 @@ func (a *Attestation) HashTreeRoot(spec *common.Spec, hFn tree.HashFn) common.Ro
 type Attestations []Attestation
 
 func (a *Attestations) Deserialize(spec *common.Spec, dr *codec.DecodingReader) error {
+	// decode into a recycled object: drop what it holds (dr.List appends)
+	*a = (*a)[:0]
 	return dr.List(func() codec.Deserializable {
 		i := len(*a)
 		*a = append(*a, Attestation{})
